@@ -207,7 +207,7 @@ def gen_ops(rng, spec, sib, kinds):
 def run(ctx, rep, model=True):
     kinds = ["colander", "combine-sibling", "combine-ancestor", "combine-ancestor-first", "chef"]
     seqs = [[k] for k in kinds] + [list(p) for p in itertools.product(kinds, repeat=2)]
-    extra = 6 if ctx.quick else 80
+    extra = 14 if ctx.quick else 100
     for _ in range(extra):
         seqs.append([ctx.rng.choice(kinds) for _ in range(ctx.rng.choice([3, 4]))])
     # the two corollaries named by the property
